@@ -42,4 +42,120 @@ def replay_used(kind, unit):
             continue
         if abs(got - conv(w)) > 0.6 * 10 ** (-prec) + 1e-9 * abs(conv(w)):
             fails.append(f"{tf}: reported {got} {unit}, ledger says {conv(w)}")
+    fails += partial_plate(subj, kind, unit, conv, prec)
     return {'ok': not fails, 'observed': fails[:3] or 'as the ledger', 'expected': 'net gain of the plate per timeframe'}
+
+
+def partial_plate(subj, kind, unit, conv, prec):
+    """second scenario: only PART of the plate is dispensed to (well A1 stays empty) with amounts that are not whole
+    storage units, over two stages"""
+    water = Substance.liquid('water', 18.0153, 1)
+    stock = Container('stock2', initial_contents=[(water, '10 mL'), (subj, '333.3 U' if kind == 3 else '0.7777 mmol')])
+    p = Plate('Q', '500 uL', rows=2, columns=3)
+    r = Recipe().uses(stock, p)
+    r.start_stage('rowB')
+    r.transfer(stock, p[2], '37.3 uL')
+    r.end_stage('rowB')
+    r.start_stage('rest')
+    r.transfer(stock, p[1, 2:3], '11.7 uL')
+    r.end_stage('rest')
+    r.bake()
+    s1, p1 = Plate.transfer(stock, p[2], '37.3 uL')
+    s2, p2 = Plate.transfer(s1, p1[1, 2:3], '11.7 uL')
+
+    def tot(o):
+        return sum(w.contents.get(subj, 0) for w in o.wells.flatten())
+    fails = []
+    for tf, w in {'rowB': tot(p1) - tot(p), 'rest': tot(p2) - tot(p1), 'all': tot(p2) - tot(p)}.items():
+        try:
+            got = r.get_substance_used(subj, tf, unit, destinations=[p])
+        except Exception as e:
+            fails.append(f"partial plate, {tf}: {e!r}")
+            continue
+        if abs(got - conv(w)) > 0.6 * 10 ** (-prec) + 1e-9 * abs(conv(w)):
+            fails.append(f"partial plate, {tf}: reported {got} {unit}, ledger says {conv(w)}")
+    return fails
+
+
+def replay_flows(unit):
+    """flows and amount remaining against an independent ledger: a partly filled plate, a withdrawal from one well and a
+    remove step on one row, in two stages"""
+    import numpy
+    import pyplate.pyplate as pp
+    from pyplate.pyplate import Unit
+    water = Substance.liquid('water', 18.0153, 1)
+    salt = Substance.solid('NaCl', 58.4428)
+    stock = Container('stock', initial_contents=[(water, '10 mL'), (salt, '0.7777 mmol')])
+    waste = Container('waste')
+    p = Plate('P', '500 uL', rows=2, columns=3)
+    r = Recipe().uses(stock, waste, p)
+    r.start_stage('s1')
+    r.transfer(stock, p[2], '37.3 uL')
+    r.transfer(stock, p[1, 2:3], '11.7 uL')
+    r.end_stage('s1')
+    r.start_stage('s2')
+    r.transfer(p[2, 1], waste, '5.5 uL')
+    r.remove(p[2], water)
+    r.end_stage('s2')
+    r.start_stage('s3')
+    r.transfer(p[1, 2:3], p[2, 2:3], '3.3 uL')        # inside the plate
+    r.end_stage('s3')
+    r.bake()
+    # eager fold with snapshots
+    snaps = [dict(stock=stock, waste=waste, P=p)]
+
+    def push(**kw):
+        d = dict(snaps[-1])
+        d.update(kw)
+        snaps.append(d)
+    a, b = Plate.transfer(stock, p[2], '37.3 uL'); push(stock=a, P=b)
+    a, b = Plate.transfer(snaps[-1]['stock'], snaps[-1]['P'][1, 2:3], '11.7 uL'); push(stock=a, P=b)
+    a, b = Container.transfer(snaps[-1]['P'][2, 1], snaps[-1]['waste'], '5.5 uL'); push(P=a, waste=b)
+    push(P=snaps[-1]['P'][2].remove(water))
+    a, b = Plate.transfer(snaps[-1]['P'][1, 2:3], snaps[-1]['P'][2, 2:3], '3.3 uL'); push(P=b)
+    roles = [('stock', 'P', False), ('stock', 'P', False), ('P', 'waste', False), (None, 'P', True), ('P', 'P', False)]   # (source, destination, discards)
+    stages = {'all': (0, 5), 's1': (0, 2), 's2': (2, 4), 's3': (4, 5)}
+
+    def amount(c):
+        return sum(Unit.convert_from(s, v, 'U' if s.is_enzyme() else pp.config.moles_storage_unit, unit) for s, v in c.contents.items())
+
+    def total(o):
+        if isinstance(o, Container):
+            return amount(o)
+        return numpy.array([[amount(w) for w in row] for row in o.wells])
+    prec = pp.config.precisions.get(unit, pp.config.precisions['default'])
+    tol = 0.6 * 10 ** (-prec)
+    fails = []
+    for tf, (lo, hi) in stages.items():
+        for name in ('stock', 'waste', 'P'):
+            used = [i for i in range(lo, hi) if name in roles[i][:2]]
+            if not used:
+                continue
+            inflow = outflow = 0
+            for i in used:
+                before, after = total(snaps[i][name]), total(snaps[i + 1][name])
+                src, dst, discards = roles[i]
+                if src == dst == name:      # inside the object: wells that gained / wells that lost
+                    inflow = inflow + numpy.clip(after - before, 0, None)
+                    outflow = outflow + numpy.clip(before - after, 0, None)
+                elif dst == name and not discards:
+                    inflow = inflow + (after - before)
+                else:
+                    outflow = outflow + (before - after)
+            obj = {'stock': stock, 'waste': waste, 'P': p}[name]
+            try:
+                fl = r.get_container_flows(obj, tf, unit)
+                rem_b = r.get_amount_remaining(obj, tf, unit, mode='before')
+                rem_a = r.get_amount_remaining(obj, tf, unit, mode='after')
+            except Exception as e:
+                fails.append(f"{name}, {tf}: {e!r}")
+                continue
+            for label, got, want in (('in', fl['in'], inflow), ('out', fl['out'], outflow),
+                                     ('remaining before', rem_b, total(snaps[used[0]][name])),
+                                     ('remaining after', rem_a, total(snaps[used[-1] + 1][name]))):
+                if numpy.any(numpy.abs(numpy.asarray(got, dtype=float) - numpy.asarray(want, dtype=float)) > tol):
+                    fails.append(f"{name}, {tf}: {label} reported {numpy.asarray(got).tolist()} {unit}, ledger says "
+                                 f"{numpy.round(numpy.asarray(want, dtype=float), prec + 2).tolist()}")
+            if numpy.any(numpy.asarray(fl['in']) < 0) or numpy.any(numpy.asarray(fl['out']) < 0):
+                fails.append(f"{name}, {tf}: negative flow {fl}")
+    return {'ok': not fails, 'observed': fails[:4] or 'as the ledger', 'expected': 'flows and amounts remaining per object / per well'}
